@@ -68,6 +68,11 @@ def c08_symbols(rng, pw, reduced=False):
     syms.append(("PING", lambda: RB("PING", []), "other", False))
     syms.append(("GET k", lambda: RB("get", [b"k"]), "other", False))
     syms.append(("SET k v", lambda: RB("SET", [b"k", b"v"]), "other", False))
+    # a command name the server has no executor for (what newer clients send first: HELLO 3, CLIENT SETINFO): refused like any
+    # other command before AUTH, and leaves nothing behind on the connection
+    syms.append(("HELLO 3 (no executor)", lambda: RB("HELLO", [b"3"]), "other", False))
+    if not reduced:
+        syms.append(("CLIENT SETINFO lib-name x (no executor)", lambda: RB("CLIENT", [b"SETINFO", b"lib-name", b"x"]), "other", False))
     if not reduced:
         syms.append(("ECHO x", lambda: RB("ECHO", [b"x"]), "other", False))
         syms.append(("SELECT 1", lambda: RB("SELECT", [b"1"]), "other", False))
@@ -695,6 +700,14 @@ def run_c07(tier, seed):
         chk.coverage["witness_under_churn"] = dict(rounds=r.get("witness_rounds"), config_sets=r.get("config_sets"), short_connections=r.get("churn"))
     if not wrows and not chk.violations:
         chk.violation("incomplete", "the witness run produced no result: %s" % wo[-300:], dict(output=wo[-2000:]), True)
+    # real sockets: clients that connect at the SAME moment are other clients to each other - every one is served on its own socket
+    # with its own replies (a client that arrives while the previous one is being handed to its goroutine must not take its place)
+    import lifeprops
+    brows, bo = lifeprops.run_mode(chk, "burst", ["6" if tier == "quick" else "60", "12"], timeout=300)
+    for r in brows:
+        if r.get("problems"):
+            chk.violation("simultaneous-clients", "%d plain and TLS clients connecting at the same moment (round %d): %s" % (r.get("clients", 0), r.get("round", 0), " ; ".join(r["problems"])[:500]), dict(row=r))
+    chk.coverage["simultaneous_client_rounds"] = len(brows)
     if broken and not chk.violations:
         chk.violation("proof-broken", broken, dict(broken=broken, theorem="GRP.C07"), True)
     chk.coverage.update(
